@@ -39,14 +39,22 @@ ASSUMPTIONS = [
     "default overwrite='if_broken'; chunk lists are non-empty (a run without chunks is stored but unloadable also without any fault)",
 ]
 
-# tqdm guards its bookkeeping with a multiprocessing lock shared by every fork()ed process: a child that is made
-# to die while holding it would block all the others.  A plain thread lock is all this check needs.
+# tqdm guards its bookkeeping with a class-level lock (a multiprocessing lock by default) and runs a monitor thread
+# that takes it periodically: a process fork()ed while that thread holds the lock inherits it locked for ever and
+# hangs at the next progress bar (strax builds one even with progress_bar=False).  No monitor thread, a plain
+# thread lock, and a fresh lock in every fork()ed child.
 try:
     import threading as _threading
 
     import tqdm as _tqdm
-    _tqdm.tqdm.set_lock(_threading.RLock())
-    strax.utils.tqdm.set_lock(_threading.RLock())
+
+    def _fresh_tqdm_lock():
+        for cls in {_tqdm.tqdm, strax.utils.tqdm}:
+            cls.monitor_interval = 0
+            cls.set_lock(_threading.RLock())
+
+    _fresh_tqdm_lock()
+    os.register_at_fork(after_in_child=_fresh_tqdm_lock)
 except Exception:  # noqa: BLE001
     pass
 
@@ -366,7 +374,7 @@ def inspect(scen, root):
 def saver_ops(trace, key):
     """operations of the save protocol on this key that were actually issued (the one a `die_before` fault
     prevented is in the trace only as a marker)"""
-    return [o for o in trace if o["key"] == key and o["role"] != "R" and o["res"] != "die_before"]
+    return [o for o in trace if o["key"] == key and o["role"] != "R" and o["res"] not in ("die_before", "inflight")]
 
 
 # ----------------------------------------------------------------------------- scenario preparation (cached per process)
@@ -555,6 +563,10 @@ def attempt_spec(scen, key, step, base_ops_model, faulted_here, show):
                 fault = ("db@%d" if kind == "die_before" else "da@%d") % k
         elif step["outcome"] == "died":
             fault = f"db@{len(ops)}"
+            if any(o["key"] == key and o["role"] != "R" and o["res"] == "inflight" for o in step["trace"]):
+                # an operation of this saver was in flight on another thread when the process died: it may or may
+                # not have taken effect (both are deaths of the model, one operation apart)
+                fault = f"db@{len(ops)}?"
         else:
             # an exception elsewhere: this saver was closed by the handler, abandoned, or had finished already
             last_md = [s for s in ops if s.startswith("write:T:m:")]
@@ -644,6 +656,16 @@ def build_rows(case, res, driver):
                 tokens.append(tok)
         impl = impl_line(scen, key, steps, shows, took)
         op = ("c04.run " + p["chunks"][key] + " " + " ".join(pre_tokens + tokens)) if tokens else None
+        if op is not None and "?|" in op:
+            # undecided in-flight operation: the model is asked for the death before it and after it
+            import re as _re
+            m = _re.search(r"db@(\d+)\?", op)
+            n0 = int(m.group(1))
+            cands = [op.replace(m.group(0), f"db@{n0}"), op.replace(m.group(0), f"db@{n0 + 1}")]
+            outs = driver.run(cands)
+            n_pre = len(pre_tokens)
+            pick = next((c for c, o in zip(cands, outs) if " ; ".join(o.split(" ; ")[n_pre:]) == impl), cands[0])
+            op = pick
         rows.append(dict(key=key, impl=impl, op=op, n_pre=len(pre_tokens)))
     return rows
 
